@@ -83,6 +83,8 @@ namespace chaiscript {
     inline thread_local std::size_t parse_remaining_max = 0;
     /// number of normal returns of parse_internal (per thread)
     inline thread_local std::size_t parse_returns = 0;
+    /// size in bytes of the input handed to the most recent top-level parse() (per thread)
+    inline thread_local std::size_t last_parse_input_size = 0;
   } // namespace verif
 } // namespace chaiscript
 #endif
